@@ -579,6 +579,11 @@ func (a *Analysis) ruleW2(upd *ssa.Function) {
 	for i, v := range data.Elems {
 		name := stt.Field(i).Name()
 		switch x := v.(type) {
+		case SliceV:
+			// an element-wise copy of the token slice
+			if ac, ok := execRec.State[x.O].(*ArrC); ok && ac.Alias != nil {
+				words, wordsField = ac.Alias, name
+			}
 		case *TokensV:
 			words, wordsField = x, name
 		case StrV:
